@@ -1,6 +1,6 @@
 /-
 Driver for C07: the real `BatchCheckQuery.Execute` against (a) the standalone Check of every item through
-the same real checker — the property itself — (b) the model `Model.Batch.execute` run with the
+a real checker of its own (the batch shares one checker among its items) — the property itself — (b) the model `Model.Batch.execute` run with the
 normalised inputs as key (validation outcome, number of de-duplicated checks) and (c) the reference
 oracle of C01 (diagnosis only: a batch answer that agrees with the standalone answer but not with the
 oracle is a finding of C01, not of C07).
@@ -31,6 +31,8 @@ def parseItems : Nat → List String → Option (List BItem)
 
 structure BCase where
   engine : String
+  /-- the object whose datastore reads time out (engine token `v1!<object>`), "" = none -/
+  fault : String := ""
   maxChecks : Nat
   stratified : Bool
   model : Vocab.Model
@@ -49,7 +51,10 @@ def parseBatch (line : String) : Option BCase := do
   let (_, ts) ← FgaCodec.expect "items" ts
   let (k, ts) ← FgaCodec.nat ts
   let items ← parseItems k ts
-  pure { engine := engine, maxChecks := mx, stratified := strat = 1, model := m, stored := stored, items := items }
+  let (engine, fault) := match engine.splitOn "!" with
+    | e :: rest@(_ :: _) => (e, "!".intercalate rest)
+    | _ => (engine, "")
+  pure { engine := engine, fault := fault, maxChecks := mx, stratified := strat = 1, model := m, stored := stored, items := items }
 
 /-! normalised inputs: what the de-duplication key may not distinguish (C24: order of context fields,
 order of contextual tuples) -/
@@ -111,6 +116,9 @@ def step (c impl : String) : String :=
       if extra ≠ "extra=0" then specViol s!"outcomes for correlation ids that are not in the request: {extra}" else
       match bad with
       | (it, p) :: _ =>
+        if p.2.1 = "Ecancel-live" then
+          specViol s!"correlation id {it.cid}: reported `context canceled` although the request context was alive — the failure of another item cancelled it (item_error_isolated); standalone Check of the same input: {p.2.2} (input {normInput it}{if bc.fault = "" then "" else ", reads on " ++ bc.fault ++ " time out"})"
+        else
         specViol s!"correlation id {it.cid}: batch outcome {p.2.1}, standalone Check of the same tuple / contextual tuples / context {p.2.2} (input {normInput it})"
       | [] =>
         -- (b) the model: per id and the de-duplication count
@@ -124,7 +132,7 @@ def step (c impl : String) : String :=
         else
           -- (c) diagnosis against the reference oracle (default engine, stratified models)
           let tainted :=
-            if bc.stratified && bc.engine = "v1" then
+            if bc.stratified && bc.engine = "v1" && bc.fault = "" then
               (bc.items.zip pairs).any (fun (it, p) =>
                 let w : World := { model := bc.model, aux := it.aux, stored := bc.stored, ctxTuples := sortByObj it.ctxT, req := it.req }
                 match oracleClass w, p.2.1 with
@@ -135,7 +143,9 @@ def step (c impl : String) : String :=
                 | _, _ => false)
             else false
           let anyT := pairs.any (fun p => p.2.1 = "T")
-          let cls := (if res.duplicateCheckCount > 0 then "dedup" else "nodedup") ++ (if tainted then "-c01-known-taint" else "")
+          let failed := pairs.any (fun p => p.2.1 = "Ectx")
+          let cls := (if res.duplicateCheckCount > 0 then "dedup" else "nodedup") ++ (if tainted then "-c01-known-taint" else "") ++
+            (if bc.fault = "" then "" else if failed then "-one-item-timed-out" else "-fault-not-reached")
           ok cls (bc.items.length > 1 && anyT)
 
 end OpenFGAVerif.DriverC07
